@@ -322,9 +322,8 @@ def _classify(case):
     return "accept", []
 
 
-def _build(case):
-    import robotools
-
+def _args(case):
+    """(constructor name, positional arguments, keyword arguments) of the specification, as fresh objects."""
     init = case["init"]
     if init["t"] == "none":
         iv = None
@@ -344,15 +343,55 @@ def _build(case):
         if iv is not None:
             kw["initial_volumes"] = iv
         if names:
-            kw["column_names"] = names["v"]
-        return robotools.Trough(case["name"], case["vrows"], case["cols"], **kw)
+            kw["column_names"] = list(names["v"]) if isinstance(names["v"], list) else names["v"]
+        return "Trough", (case["name"], case["vrows"], case["cols"]), kw
     if iv is not None:
         kw["initial_volumes"] = iv
     if names:
         kw["component_names"] = dict(names["v"])
     if case["ctor"] == "LabwareV":
         kw["virtual_rows"] = case["vrows"]
-    return robotools.Labware(case["name"], case["rows"], case["cols"], **kw)
+    return "Labware", (case["name"], case["rows"], case["cols"]), kw
+
+
+def _build(case, args=None):
+    import robotools
+
+    ctor, pos, kw = args or _args(case)
+    return getattr(robotools, ctor)(*pos, **kw)
+
+
+def _same(a, b):
+    if isinstance(a, np.ndarray) or isinstance(b, np.ndarray):
+        return isinstance(a, np.ndarray) and isinstance(b, np.ndarray) and a.shape == b.shape and np.array_equal(a, b, equal_nan=True)
+    if isinstance(a, float) and isinstance(b, float) and a != a and b != b:
+        return True
+    if isinstance(a, (list, tuple)) and isinstance(b, (list, tuple)):
+        return type(a) is type(b) and len(a) == len(b) and all(_same(x, y) for x, y in zip(a, b))
+    if isinstance(a, dict) and isinstance(b, dict):
+        return list(a.keys()) == list(b.keys()) and all(_same(a[k], b[k]) for k in a)
+    return type(a) is type(b) and a == b
+
+
+def _twice(case, obs, desc):
+    """Constructing is a function of the specification: the same argument objects give the same outcome again, unchanged."""
+    import copy
+
+    args = _args(case)
+    snapshot = copy.deepcopy(args)
+    outcomes = []
+    for _ in range(2):
+        try:
+            lw = _build(case, args)
+            outcomes.append(("ok", lw.volumes.tolist(), sorted(lw.composition.keys()), [str(w) for w in lw.wells.flatten()[:200]]))
+        except Exception as e:  # noqa
+            outcomes.append(("raise", type(e).__name__))
+        if not _same(args[2], snapshot[2]) or not _same(list(args[1]), list(snapshot[1])):
+            obs.bad("C20/arguments-modified", f"{desc}: the constructor changed the objects passed to it: {str(args[2])[:200]} (before: {str(snapshot[2])[:200]})")
+            return
+    if repr(outcomes[0]) != repr(outcomes[1]):
+        obs.bad("C20/second-construction-differs", f"{desc}: constructing twice from the same argument objects gave {str(outcomes[0])[:150]} and then {str(outcomes[1])[:150]}")
+    obs.cls("built-twice")
 
 
 def check_case(case) -> Obs:
@@ -370,6 +409,7 @@ def check_case(case) -> Obs:
     else:
         exc = None
     desc = f"{case['ctor']}(rows={case['rows']!r}, columns={case['cols']!r}, virtual_rows={case['vrows']!r}, min={case['min']!r}, max={case['max']!r}, init={str(case['init'])[:120]}, names={str(case['names'])[:100]})"
+    _twice(case, obs, desc)
     if exc is not None:
         obs.cls("rejected", "exc:" + type(exc).__name__)
         if expect == "accept":
